@@ -762,6 +762,9 @@ class _ExprNorm(ast.NodeTransformer):
             t, fl = _positive(node)
             if isinstance(t, ast.Compare) or isinstance(t, ast.BoolOp):
                 return _loc(_negate(t), node) if fl else t
+            # `not not isinstance(..)`: the value of these calls is a bool already
+            if not fl and isinstance(t, ast.Call) and isinstance(t.func, ast.Name) and t.func.id in ("isinstance", "issubclass", "hasattr", "callable", "any", "all", "bool"):
+                return t
         return node
 
 
